@@ -12,7 +12,7 @@ pub fn cps(s: &str) -> Value {
 pub const PLAIN: &[&str] = &["a", "b", "c", "d", "e", "g", "h", "x1", "y", "z9", "st", "Q"];
 pub const KEYWORDISH: &[&str] = &["and", "andy", "or", "c", "neg", "s", "ac", "v", "f", "imp", "xor", "iff", "0", "10", "a2", "A", "2", "negx", "orb", "cv", "sac"];
 /// labels that need quotes; those with operator characters trip the biodivine variable-name check (known finding F9)
-pub const QUOTED_SAFE: &[&str] = &["a b", "p.q", "m,n", "x y z", "1.5", "a_b", "#", "a-b", "s.", "c,v"];
+pub const QUOTED_SAFE: &[&str] = &["a b", "p.q", "m,n", "x y z", "1.5", "a_b", "#", "a-b", "s.", "c,v", "\u{e9}t\u{e9}", "\u{65e5}\u{672c}", "\u{df} x", "Z\u{fc}rich"];
 pub const QUOTED_OPS: &[&str] = &["x(y", "a&b", "p|q", "!n", "u=v", "i<j", "k>l", "a^b", "q?r", "t:u", "s(", ")("];
 
 pub fn needs_quotes(l: &str) -> bool {
